@@ -280,7 +280,7 @@ pub fn run_profile_cfgs(
                 tally: Tally::default(),
                 classify,
                 extra_check: extra_check.map(|f| f as &dyn Fn(&Case, &str, &Obs) -> Option<(String, String)>),
-                paren_variant_every: tier.pick(2, 1),
+                paren_variant_every: tier.pick(3, 1),
             };
             generate(tier, &mut |c| r.take(c));
             r.tally
@@ -388,7 +388,7 @@ pub fn run_profile_cfgs(
     report.cov("unmodelled_reasons", json!(t.unmodelled_reasons));
     report.cov("shape_predicate_counts", json!(t.masked));
     report.cov("exhaustive", true);
-    report.cov("rule", format!("{rule}{composed_rule}; every generated program is rendered to source, compiled and run on the real koto (fresh runtime) and evaluated by the reference interpreter kref; every second program (thorough: every program) is also run in a rendering with redundant parentheses around every operand, argument, element and assigned value, which must give the same observation; distinct_nontrivial = distinct (stdout, outcome) observations among compared programs"));
+    report.cov("rule", format!("{rule}{composed_rule}; every generated program is rendered to source, compiled and run on the real koto (fresh runtime) and evaluated by the reference interpreter kref; every third program (thorough: every program) is also run in a rendering with redundant parentheses around every operand, argument, element and assigned value, which must give the same observation; distinct_nontrivial = distinct (stdout, outcome) observations among compared programs"));
     report.cov("samples", json!(t.samples));
     for a in assumptions {
         report.assume(a);
